@@ -116,6 +116,28 @@ def inputs(ctx):
             for w in DW:
                 ins.append({"id": "s%d" % n, "writer": w, "set": _string_set(pos, s), "opts": {}, "force": "", "pos": pos, "cls": cls})
                 n += 1
+    # style tables: every key (the special id "p", an ordinary class) x every kind of rule set
+    # (expressible in DFXP, not expressible, empty, mixed) x what captions and spans refer to
+    rules = [{"color": "red"}, {"font-weight": "bold"}, {"bold": True}, {}, {"color": "red", "font-weight": "bold"},
+             {"lang": "en-US"}, {"text-align": "center"}, {"underline": True, "font-size": "12"}]
+    for key in ("p", "c1"):
+        for r1 in rules:
+            for other in (None, {"color": "blue"}, {"font-weight": "bold"}):
+                styles = {key: dict(r1)}
+                if other is not None:
+                    styles["c2" if key != "c2" else "c3"] = dict(other)
+                for capref in ({}, {"class": key}, {"class": "missing"}, {"class": "c2"}):
+                    for spanref in ({"italics": True}, {"class": key}, {"class": "c2", "italics": True}):
+                        st = {"langs": [{"lang": "en-US", "caps": [
+                            {"s": 1000000, "e": 2000000, "style": dict(capref),
+                             "nodes": [["t", "a "], ["s", True, dict(spanref)], ["t", "b"], ["s", False, dict(spanref)]]},
+                            {"s": 3000000, "e": 4000000, "nodes": [["t", "c"]]}]}], "styles": styles}
+                        for w in DW:
+                            if ctx.quick and (n % 2):
+                                n += 1
+                                continue
+                            ins.append({"id": "y%d" % n, "writer": w, "set": st, "opts": {}, "force": ""})
+                            n += 1
     docs = list(corpus.docs())
     for d in docs:
         for w in DW:
